@@ -34,10 +34,24 @@ def strict_seq(events, hooks_only=False):
     for e in events:
         k = e[1]
         if k == "hook":
+            if any(v == "?" for _, v in e[2][1]):
+                out.append(("hook", e[2][0], None))      # outputs uncertain (T3): compare the call only
+                continue
             out.append(("hook", e[2][0], e[2][1]))
         elif k == "append" and not hooks_only:
             out.append(("append",) + tuple(e[2]))
     return out
+
+
+def ev_eq(r, a):
+    """reference event vs machine event; a reference hook with outputs None (uncertain, T3) matches any outputs"""
+    if r[0] == "hook" and a[0] == "hook" and r[2] is None:
+        return r[1] == a[1]
+    return r == a
+
+
+def seq_eq(rs, as_):
+    return len(rs) == len(as_) and all(ev_eq(r, a) for r, a in zip(rs, as_))
 
 
 def structural_problems(comp):
@@ -117,15 +131,15 @@ def check_program(shard, prog, argv, max_len, do_c=True):
         if want == FAIL:
             # actions pending when the error strikes may or may not have run (T3): one sequence must be a prefix of the other
             k_ = min(len(am_seq), len(ri_seq))
-            ok = (r.code == want) and am_seq[:k_] == ri_seq[:k_]
+            ok = (r.code == want) and seq_eq(ri_seq[:k_], am_seq[:k_])
         else:
-            ok = (r.code == want) and am_seq == ri_seq
+            ok = (r.code == want) and seq_eq(ri_seq, am_seq)
         if ok and want != FAIL:
             final = trace.norm_am_vars(c2.frozen_vars())
-            if not prog_has_plain_set(prog) and final != ref.final:
+            if not prog_has_plain_set(prog) and any(v != "?" and final.get(k) != v for k, v in ref.final.items()):
                 ok = False
         if not ok:
-            kind = "code" if r.code != want else ("events" if am_seq != ri_seq else "outputs")
+            kind = "code" if r.code != want else ("events" if not seq_eq(ri_seq, am_seq) else "outputs")
             raise Failure("c17:end-%s:%s" % (kind, "expected-%s" % ("FAIL" if want == FAIL else "DONE" if want == DONE else "FINISH")),
                           "input %s then end(): reading -> code %d events %r final %r\n machine -> code %d events %r\n%s"
                           % (word.hex(), want, ri_seq[-4:], ref.final, r.code, am_seq[-4:], src), dict(replay, input=word.hex()))
@@ -171,7 +185,7 @@ def check_program(shard, prog, argv, max_len, do_c=True):
                         continue
                     got_hooks = [("hook", h[0], h[2]) for c in calls for h in c.hooks]
                     k_ = min(len(got_hooks), len(hooks))
-                    hooks_ok = (got_hooks == hooks) if want != FAIL else (got_hooks[:k_] == hooks[:k_])
+                    hooks_ok = seq_eq(hooks, got_hooks) if want != FAIL else seq_eq(hooks[:k_], got_hooks[:k_])
                     if ends[0].code != want or not hooks_ok:
                         raise Failure("c17:c-end-%s%s" % ("code" if ends[0].code != want else "hooks", ":strict" if extra else ""),
                                       "input %s then end() through C (%s): expected code %d hooks %r, got code %d hooks %r\n%s"
